@@ -188,7 +188,8 @@ func genC12(cfg Config, ws *WorldSet, i int) C12Case {
 	// the whole history then lives at that path
 	outArg := ""
 	if r.Chance(1, 8) {
-		outArg = filepath.Dir(setup) + "/" + sim.Pick(r, []string{"zz_generated.go", "conv_gen.go", "logo.go"})
+		// ... or in an existing sub-directory (the layout of the repository's own ref/generated use case)
+		outArg = filepath.Dir(setup) + "/" + sim.Pick(r, []string{"zz_generated.go", "conv_gen.go", "logo.go", "sub/out.gen.go", "sub/generated.go"})
 	}
 	mkInv := func() *Invocation {
 		form := sim.Pick(r, []string{"rel-pkgdir", "rel-pkgdir", "rel-pkgdir", "rel-modroot", "gofile", "abs"})
